@@ -27,7 +27,10 @@ EXERCISED = (
     "on the receive and on the send side; the discoverer object re-used; state reported during "
     "the handshake as varied as later state; console state changing between commands; a "
     "handshake that completes only after init() gave up; open_socket() while open; a link reset "
-    "while a subscriber is still busy with the previous frame")
+    "while a subscriber is still busy with the previous frame; the library's loggers at DEBUG "
+    "level; AC numbers with gaps; text made of frame-prefix bytes; commands submitted while "
+    "the link is down, up to a full buffer, including values no frame has room for "
+    "(infinite, NaN, huge)")
 
 T = """You are helping to evaluate a verification harness by producing a *subtle, realistic regression* in a Python library.
 
@@ -48,7 +51,7 @@ Study the relevant code ({files}) and look for a place where a plausible refacto
 
 The change must clearly violate the property AS STATED (judged by the library's observable behaviour and the documented protocol, not by assumptions about undocumented console behaviour). It must not depend on real-socket behaviour that a faithful in-memory transport could not show.
 
-Deliverables in `/tmp/seeded_out/{sid}/`: `patch.diff` (`git -C /tmp/wt/{sid} diff`, ONE small plausible change that needs something specific to manifest - most inputs keep working); a demonstration (script or pytest file) driving the real public API (`pyairtouch.connect(...)`, `init()`, public methods/attributes, `shutdown()`; for socket-level properties `pyairtouch.comms.socket.AirTouchSocket` directly; for discovery `pyairtouch.discover`) against a fake console on 127.0.0.1 built with `asyncio.start_server` (or a fake UDP responder) that answers the six handshake requests and then pushes frames / drops connections as needed; patch module interval constants or `asyncio.sleep` in the demo to avoid long real waits; it FAILS (non-zero exit) with your change, PASSES (exit 0) on the unchanged tree, deterministic, < 30 s; `notes.md` (what was changed, what is needed to manifest, commands run and outcomes in both directions + the 272 tests with the change). Leave the change applied. Report a 5-line summary.
+Deliverables in `/tmp/seeded_out/{sid}/`: `patch.diff` (`git -C /tmp/wt/{sid} diff`, ONE small plausible change that needs something specific to manifest - most inputs keep working); a demonstration (script or pytest file) driving the real public API (`pyairtouch.connect(...)`, `init()`, public methods/attributes, `shutdown()`; for socket-level properties `pyairtouch.comms.socket.AirTouchSocket` directly; for discovery `pyairtouch.discover`) against a fake console on 127.0.0.1 built with `asyncio.start_server` (or a fake UDP responder) that answers the six handshake requests and then pushes frames / drops connections as needed; patch module interval constants or `asyncio.sleep` in the demo to avoid long real waits; it FAILS (non-zero exit) with your change, PASSES (exit 0) on the unchanged tree, deterministic, < 30 s; `notes.md` (what was changed, what is needed to manifest, commands run and outcomes in both directions + the 272 tests with the change). The demonstration must import pyairtouch through PYTHONPATH only (no sys.path manipulation, no hard-coded worktree path). Leave the change applied. Report a 5-line summary.
 """
 
 os.makedirs("/tmp/agentprompts", exist_ok=True)
